@@ -478,6 +478,10 @@ func (e *SpecEnv) call(x *Expr) SV {
 	switch x.Name {
 	case "len", "cap":
 		a := e.tr(x.Args[0])
+		if _, isChan := a.T.Underlying().(*types.Chan); isChan && x.Name == "cap" {
+			h := sh.cur("chan.cap", "(Array Int Int)")
+			return SV{V: IntV(fmt.Sprintf("(select %s %s)", h, a.V.T)), T: tInt}
+		}
 		if a.V.K != KSlice {
 			specFail("%s of non-slice", x.Name)
 		}
